@@ -474,6 +474,10 @@ def native_replay(u, inputs, rfile):
         return None, 'replay build failed: ' + (out + err)[-1500:]
     env = dict(os.environ)
     env['VG_REPLAY_FILE'] = rfile
+    try:
+        env['VG_OBLIGATION_DESC'] = str(json.load(open(rfile)).get('description', ''))[:400]     # lets a driver decline clauses it does not exercise
+    except Exception:
+        env['VG_OBLIGATION_DESC'] = ''
     for k, v in inputs.items():
         if re.match(r'^[A-Za-z_]\w*$', k):
             env['VG_IN_' + k] = str(v)
